@@ -68,7 +68,15 @@ structure State where
   now    : Nat := 0
   pool   : Pool := {}
   leases : AMap Nat Lease := []       -- MAC → lease
-  qos    : List Nat := []             -- addresses with a QoS entry
+  qos    : List Nat := []             -- addresses with a QoS entry (the egress map: written first)
+  /-- addresses whose QoS install stopped half-way: the egress bucket was written, the ingress Put failed (map full),
+      and qos.Manager does not track the subscriber; ingress keys and the manager's table are `qos` minus these -/
+  qosHalf : List Nat := []
+  /-- fault injection: the QoS egress / QoS ingress / subscriber_nat kernel map has no free slot (a Put of a NEW key
+      fails, updates of existing keys and deletes work) -/
+  fullE  : Bool := false
+  fullI  : Bool := false
+  fullN  : Bool := false
   nat    : List Nat := []             -- addresses with a NAT allocation
   kMac   : List Nat := []             -- subscriber_pools keys
   kVlan  : List (Nat × Nat) := []     -- vlan_subscriber_pools keys (never written by pkg/dhcp)
@@ -129,7 +137,7 @@ def startsOf (a : AMap Nat Sess) (k : Nat) : Nat := ((AMap.lookup a k).map (·.s
     session id), RemoveSubscriberQoS, DeallocateNAT -/
 def sessionEnd (s : State) (mac : Nat) (l : Lease) : State :=
   { s with acct := if s.radius then addStop s.acct l.sess mac else s.acct,
-           qos := rm s.qos l.ip, nat := rm s.nat l.ip }
+           qos := rm s.qos l.ip, qosHalf := rm s.qosHalf l.ip, nat := rm s.nat l.ip }
 
 /-- removeFromFastPathCache (and the same calls inlined in handleRelease): MAC entry, VLAN entry only when the lease
     has tags (never), both circuit-id entries when the lease has a circuit-id -/
@@ -183,6 +191,19 @@ def renew (s : State) (mac : Nat) (l : Lease) (r : Nat) (cid : Option Nat) : Sta
     let nl : Lease := { ip := r, exp := s.now + s.cfg.leaseTime, cid := keepCid cid l.cid, sess := l.sess }
     (cache (dropStale { s with leases := AMap.insert s.leases mac nl } mac l.cid nl.cid) mac nl.cid, .ack r)
 
+/-- qosMgr.SetSubscriberPolicy → SetSubscriberQoS: egress Put, then ingress Put, then the manager's table; an error
+    (map full) returns at once and handleRequest only logs it - the session goes on with what was written -/
+def qosInstall (s : State) (r : Nat) : State :=
+  if s.fullE && !(s.qos.contains r) then s                                   -- egress Put failed: nothing written
+  else if s.fullI && !(s.qos.contains r && !(s.qosHalf.contains r)) then     -- ingress Put failed: egress bucket stays
+    { s with qos := ins s.qos r, qosHalf := ins s.qosHalf r }
+  else { s with qos := ins s.qos r, qosHalf := rm s.qosHalf r }
+
+/-- natMgr.AllocateNAT: an existing allocation is returned as it is; otherwise the subscriber_nat Put comes before
+    the manager's own bookkeeping, so a failed Put leaves nothing -/
+def natInstall (s : State) (r : Nat) : State :=
+  if s.fullN && !(s.nat.contains r) then s else { s with nat := ins s.nat r }
+
 /-- handleRequest, new-session branch -/
 def establish (s : State) (mac r : Nat) (cid : Option Nat) : State × Reply :=
   if !s.cfg.contains r then (s, .nak)
@@ -193,8 +214,8 @@ def establish (s : State) (mac r : Nat) (cid : Option Nat) : State × Reply :=
       let k := if s.radius then s.nextSess else 0
       let nl : Lease := { ip := r, exp := s.now + s.cfg.leaseTime, cid := cid, sess := k }
       let s1 := cache { s with pool := p, leases := AMap.insert s.leases mac nl } mac cid
-      ({ s1 with qos := ins s1.qos r, nat := ins s1.nat r,
-                 acct := if s.radius then addStart s1.acct k mac else s1.acct,
+      let s2 := natInstall (qosInstall s1 r) r
+      ({ s2 with acct := if s.radius then addStart s1.acct k mac else s1.acct,
                  nextSess := if s.radius then s.nextSess + 1 else s.nextSess }, .ack r)
 
 def request (s : State) (mac r : Nat) (cid : Option Nat) : State × Reply :=
@@ -305,7 +326,12 @@ inductive Op where
       then the tail of `first` -/
   | split (first second : Term)
   | shutdown
+  /-- fault injection: which = 0 QoS egress map, 1 QoS ingress map, 2 subscriber_nat: full (on) / as created (off) -/
+  | fault (which : Nat) (on : Bool)
   deriving Repr, DecidableEq
+
+def setFault (s : State) (which : Nat) (on : Bool) : State :=
+  if which = 0 then { s with fullE := on } else if which = 1 then { s with fullI := on } else { s with fullN := on }
 
 def gap (s : State) (order : List Nat) (inner : Term) : State × Bool :=
   let ex := expiredList s order
@@ -332,6 +358,7 @@ def step (s : State) : Op → State × Reply
   | .gap o inner => ((gap s o inner).1, .none)
   | .split a b => (split s a b, .none)
   | .shutdown => (s, .none)
+  | .fault w on => (setFault s w on, .none)
 
 def run (s : State) (ops : List Op) : State := ops.foldl (fun st op => (step st op).1) s
 
@@ -364,8 +391,7 @@ def requestBegin (s : State) (mac r : Nat) (cid : Option Nat) : State × Option 
       | (_, false) => (s, none)
       | (p, true) =>
         let nl : Lease := { ip := r, exp := s.now + s.cfg.leaseTime, cid := cid, sess := if s.radius then s.nextSess else 0 }
-        ({ s with pool := p, leases := AMap.insert s.leases mac nl, nextSess := if s.radius then s.nextSess + 1 else s.nextSess },
-         some { nl := nl, old := none })
+        ({ s with pool := p, leases := AMap.insert s.leases mac nl }, some { nl := nl, old := none })
 
 /-- the rest of handleRequest, run without any lock and without looking at the lease table again -/
 def requestFinish (s : State) (mac : Nat) (p : Pending) : State :=
@@ -373,7 +399,7 @@ def requestFinish (s : State) (mac : Nat) (p : Pending) : State :=
   | some l => cache (dropStale s mac l.cid p.nl.cid) mac p.nl.cid
   | none =>
     let s1 := cache s mac p.nl.cid
-    { s1 with qos := ins s1.qos p.nl.ip, nat := ins s1.nat p.nl.ip, acct := if s.radius then addStart s1.acct p.nl.sess mac else s1.acct, early := if s.radius && (AMap.lookup s1.acct p.nl.sess).isSome then p.nl.sess :: s1.early else s1.early }
+    { natInstall (qosInstall s1 p.nl.ip) p.nl.ip with acct := if s.radius then addStart s1.acct p.nl.sess mac else s1.acct, nextSess := if s.radius then s.nextSess + 1 else s.nextSess, early := if s.radius && (AMap.lookup s1.acct p.nl.sess).isSome then p.nl.sess :: s1.early else s1.early }
 
 /-- the circuit-id index answers for a MAC that has no lease in the table (relayed message with a circuit-id): only a
     stale entry can -/
